@@ -23,7 +23,9 @@ def cases(draw, tier='quick'):
                               kinds=inf.Q_KINDS + ['zero']))
     case['special'] = draw(st.sampled_from(['none', 'none', 'none', 'fit_exact', 'all_zero_q']))
     case['order_seed'] = draw(st.integers(0, 2**31 - 1))
-    case['warm_flag'] = draw(st.booleans())        # estimator configured with warm_start=True (single call)
+    case['warm_flag'] = draw(st.booleans())        # estimator configured with warm_start=True
+    # ... and used before on another measurement list (whose cliques the new one need not cover)
+    case['prior_meas'] = draw(inf.measurement_specs(case['domain']['attrs'], case['domain']['shape'], 1, 3, max_proj=3, max_cells=64)) if case['warm_flag'] and draw(st.booleans()) else []
     return case
 
 
@@ -121,6 +123,12 @@ def run_case(case):
         return orig_bp(self, potentials, logZ)
     mbi.GraphicalModel.belief_propagation = watched_bp      # harness-side observation of the iterates' magnitude
     try:
+        if case.get('prior_meas'):
+            c0 = dict(case, meas=case['prior_meas'], iters=min(case['iters'], 10))
+            _, _, _, meas0 = inf.prepare(c0)
+            if meas0:
+                inf.run_estimate(mbi, c0, eng, meas0)
+                out.classes.append('prior_call_other_cliques')
         model = inf.run_estimate(mbi, case, eng, meas)
     finally:
         mbi.GraphicalModel.belief_propagation = orig_bp
